@@ -152,8 +152,9 @@ func distinct(seqs [][]string) int {
 // exactly the terminals listed, and for every rule handle the productions of that rule (one per
 // alternative), each of which is a production of the derived grammar.
 func harnessC12Levels() {
+	variant := verif.Pick("variant", 4)
 	k := verif.Len("k", 0, specDirK)
-	toks, _ := parser.VerifDirectiveTokens(k)
+	toks, _ := parser.VerifDirectiveTokens(k, variant)
 	parser.VerifSetLexer(toks)
 	s, err := Parse("f", nil)
 	tree, _ := parser.VerifRefParse(toks)
